@@ -233,10 +233,7 @@ func (c *UDPConn) WriteTo(payload []byte, addr net.Addr) (int, error) { //nolint
 	}
 
 	// Bind channel
-	bound, ok := c.bindingMgr.findByAddr(addr)
-	if !ok {
-		bound = c.bindingMgr.create(addr)
-	}
+	bound := c.bindingMgr.findOrCreate(addr)
 
 	//nolint:nestif
 	if !bound.ok() {
